@@ -1,4 +1,37 @@
-From Coq Require Import ZArith List Bool Lia.
+(* C11 — the theorems Property.v states, collected from Lemmas1..4 *)
+From Coq Require Import ZArith List Bool Arith Lia.
 Import ListNotations.
 From GV Require Import Common.Wire C11.Model.
-Lemma placeholder : True. Proof. exact I. Qed.
+From GV Require Export C11.Lemmas1 C11.Lemmas2 C11.Lemmas3 C11.Lemmas4.
+Open Scope Z_scope.
+
+Definition same_widths (ka kb : list cell) : Prop :=
+  Forall2 (fun a b => length (cbytes a) = length (cbytes b)) ka kb.
+
+Lemma same_widths_lengths : forall ka kb, same_widths ka kb -> same_lengths (map cbytes ka) (map cbytes kb).
+Proof. intros ka kb H. induction H; simpl; constructor; assumption. Qed.
+
+Theorem concat_key_injective : forall ka kb, same_widths ka kb ->
+  (concat_key ka = concat_key kb <-> map cbytes ka = map cbytes kb).
+Proof. intros ka kb H. unfold concat_key. apply skey_injective. apply same_widths_lengths. assumption. Qed.
+
+Theorem concat_key_needs_widths :
+  (exists ka kb, length ka = length kb /\ concat_key ka = concat_key kb /\ map cbytes ka <> map cbytes kb) /\
+  (exists ka kb, Forall2 (fun a b => veq a b = true) ka kb /\ concat_key ka <> concat_key kb).
+Proof.
+  split.
+  - exists [i32 1; i32 2], [i64 8589934593; i64 0]. split; [reflexivity|]. split; [vm_compute; reflexivity|].
+    vm_compute. discriminate.
+  - exists [i32 1; i32 1], [i64 1; i64 1]. split; [repeat constructor|]. vm_compute. discriminate.
+Qed.
+
+Definition join_1_1 := Lemmas2.join_1_1.
+Definition join_n_n := Lemmas2.join_n_n.
+Definition join_1_n := Lemmas2.join_1_n.
+Definition join_n_1 := Lemmas2.join_n_1.
+Definition join_n_n_width_refuted := Lemmas4.join_n_n_width_refuted.
+Definition join_terminates := Lemmas3.join_terminates.
+Definition join_propagates := Lemmas3.get_mask_via_join.
+Definition join_view := Lemmas3.get_mask_view.
+Definition join_both_directions := Lemmas4.join_both_directions.
+Definition join_chain := Lemmas4.join_chain.
